@@ -230,6 +230,8 @@ def run(chk):
     writeoffset.run(chk)
     from lib import disp8fits
     disp8fits.run(chk)
+    from lib import labelbase
+    labelbase.run(chk)
     return chk.finish(
         level="other",
         explanation=("Bookkeeping rules over label/fixup handling in /repo's current source: label ids validated on the taken edge before "
